@@ -278,6 +278,11 @@ def _sel(req, leaf):
 _CENSUS = {}
 
 
+CALLER_COORDS = {
+    'process_mode_user': ('process_mode', [('param', 'self'), ('param', 'conn_state'), ('param', 'target'), ('param', 'modes')]),
+}
+
+
 def cx_census(cx, prog=None):
     """crate-wide event census: every fn body walked once (closures inlined where modelled)"""
     prog = prog or cx.prog
@@ -312,7 +317,17 @@ def census_walks(cx, prog=None):
         if known and d not in known and '::test::' not in d:
             later.append(d)          # a function the rules do not know (an extracted helper): seen through its callers
             continue
-        w = cx.walk(d, prog=prog, key='census')
+        w = None
+        if d.split('::')[-1] in CALLER_COORDS and '::test::' not in d:
+            # helpers whose body the rules read in their caller's coordinates (see Cx.callsite_args)
+            caller_name, caller_args = CALLER_COORDS[d.split('::')[-1]]
+            try:
+                cargs = cx.callsite_args(cx.fn(caller_name, prog=prog), caller_args, d.split('::')[-1], prog=prog)
+                w = cx.walk(d, prog=prog, key='census', args=cargs)
+            except Exception:
+                w = None
+        if w is None:
+            w = cx.walk(d, prog=prog, key='census')
         applied |= w.applied
         inlined |= getattr(w, 'inlined_fns', set())
         res.append((d, w))
